@@ -64,6 +64,10 @@ def _groups0(tier, rng):
                 lines.append(c.case(seg="line") + "\tTAG=cmdonly")
                 lines.append(c.case(seg="one") + "\tTAG=cmdonly")
                 lines.append(c.case(seg="byte") + "\tTAG=cmdonly")
+                # the last segment arrives together with the end of the stream in one Read (crypto/tls with a close_notify behind the
+                # last record): its octets count all the same
+                lines.append(c.case(seg="line", end="eof+") + "\tTAG=cmdonly")
+                lines.append(c.case(seg="one", end="eof+") + "\tTAG=cmdonly")
                 data = b"".join(parts)
                 off0 = len(b"".join(pre))
                 for cut in range(off0 + 1, off0 + len(body), 8 if lim < 2000 else 250):
@@ -137,6 +141,16 @@ def _groups0(tier, rng):
                         f2 = list(f)
                         f2[3] = ",".join([hx(pre), hx(cmd + payload[:cut]), hx(payload[cut:]), hx(nxt), hx(b"NOOP\r\n")]) + ";eof"
                         hist.append("\t".join(f2) + "\tTAG=cmdonly")
+    # an over-long line that is buffered, complete, behind a chunk's payload — with further commands behind it in the same segment: it is
+    # found when the limit comes back, and nothing of it may be executed
+    for lim in (64, 2000):
+        for lm in (0, 1):
+            for lastc in (b" LAST", b""):
+                c = g.Conv(dict(maxline=lim, lmtp=lm))
+                c.add((b"LHLO" if lm else b"EHLO") + b" x\r\n", NS="ok"); c.add(b"MAIL FROM:<s@x>\r\n", MAIL="ok"); c.add(b"RCPT TO:<r@x>\r\n", RCPT="ok")
+                c.add(b"BDAT 10%s\r\n" % lastc, DATA=g.ddec(ret="prop"))
+                c.add(b"0123456789" + b"MAIL FROM:<long" + b"a" * (lim + 20) + b"@x>\r\n" + b"NOOP\r\n")
+                hist.append(c.case(seg="line") + "\tTAG=bait-only")
     for lim in (40, 2000):
         for total in (lim * 3, 9000):
             c = g.Conv(dict(maxline=lim, debug=rng.choice([0, 1])))
@@ -207,6 +221,17 @@ def _groups0(tier, rng):
         cfg = rng.choice(g.CONFIGS)
         names = [n for n in g.random_walk(cfg, rng, rng.randrange(3, 25)) if "panic" not in n and "lmtpstatus" not in n]
         walks.append(g.build(cfg, names, rng).case(seg=rng.choice(["one", "line", "byte", "rand"]), rng=rng))
+    # the error budget belongs to the connection: protocol errors made in plaintext count after a STARTTLS upgrade too
+    for nplain in (1, 2, 3):
+        for lm in (0, 1):
+            c = g.Conv(dict(tls="avail", lmtp=lm, maxline=2000))
+            for _ in range(nplain):
+                c.add(b"XXXX\r\n")
+            c.starttls()
+            for _ in range(5 - nplain):
+                c.add(b"YYYY\r\n")
+            c.add(b"NOOP\r\n"); c.add(b"QUIT\r\n")
+            thresh.append(c.case(seg="line"))
     mk = lambda name, cs: Group("conv/" + name, cs, project=project, theorems=THEOREMS)
     return [mk("line-lengths", lines), mk("limit-histories", hist), mk("endless", endless), mk("short-strings", short), mk("argument-syntax", args), mk("random-binary", binary),
             mk("error-threshold", thresh), mk("walks-no-panic", walks)]
